@@ -884,6 +884,17 @@ func (c *LinCtx) Intrinsic(ls []Lin, nn nonNegProver) []Lin {
 					}
 				}
 			}
+			// (A9) 0 ≤ (*bytes.Reader).Len() ≤ len(b) for a Reader built by bytes.NewReader(b): the unread part of a
+			// read-only view never exceeds what it was built over (documented behaviour of package bytes)
+			if staticCalleeIs(&x.Call, "(*bytes.Reader).Len") && len(x.Call.Args) == 1 {
+				emit(al.scale(-1))
+				if mk, ok := x.Call.Args[0].(*ssa.Call); ok && staticCalleeIs(&mk.Call, "bytes.NewReader") && len(mk.Call.Args) == 1 {
+					emit(al.add(c.LenLin(mk.Call.Args[0]), -1))
+				}
+			}
+			if staticCalleeIs(&x.Call, "(*bytes.Buffer).Len") && len(x.Call.Args) == 1 {
+				emit(al.scale(-1))
+			}
 			if isBuiltin(&x.Call, "copy") {
 				// 0 ≤ copy(dst, src) ≤ len(dst), len(src)
 				emit(al.scale(-1))
